@@ -31,6 +31,25 @@ def shrink(case, kind):
     progress = True
     while progress and budget > 0:
         progress = False
+        for t in range(len(best.get("raw_tables") or [])):       # raw tables first (cheap to drop)
+            for i in range(len(best["raw_tables"][t])):
+                if len(best["raw_tables"][t]) <= 1 or budget <= 0:
+                    continue
+                d = copy.deepcopy(best)
+                del d["raw_tables"][t][i]
+                if any(all(r[c] is None for r in tb) for tb in d["raw_tables"] for c in ("a", "b")):
+                    continue
+                budget -= 1
+                try:
+                    if fails(d):
+                        best, progress = d, True
+                        break
+                except Exception:
+                    continue
+            if progress:
+                break
+        if progress:
+            continue
         for t in range(len(best["tables"])):
             for i in range(len(best["tables"][t])):
                 if len(best["tables"][t]) <= 1 or budget <= 0:
@@ -53,7 +72,8 @@ def shrink(case, kind):
 
 def run(ctx: Ctx):
     ctx.cov["rule"] = ("X: seeded datasets of 1-3 tables whose columns are NULL-heavy / all NULL but one / single-valued / "
-                       "single-valued with NULLs / all-distinct / mixed; 2 exact-match comparisons with optional term-frequency "
+                       "single-valued with NULLs / all-distinct / mixed, plus 2-3 raw tables without an id column whose rows are exactly "
+                       "duplicated within and across tables (completeness_data and profile_columns treat tables as bags); 2 exact-match comparisons with optional term-frequency "
                        "adjustment, 0-2 blocking rules, all link types, target bins in {3,5,10,30,100}; each case yields up to "
                        "14 Coq-evaluated comparisons (3 tf tables, tf join, completeness per column, cvd, histogram, unlinkables, profile_columns per column: value frequencies / percentiles / top n / bottom n); "
                        "non-trivial = has NULLs, >= 2 distinct gamma vectors and >= 2 listed unlinkable probabilities.")
